@@ -60,6 +60,7 @@ def run(prog, rep, tier, cfg):
     DV = X.fn('deal_proposal_is_internally_valid', CR)
     au = [c for c in DV.calls if sendsmod.is_send(c)]
     rep.need('K5', 'authenticate:send', len(au) == 1, 'one AuthenticateMessage send expected', X.loc(DV))
+    sendsmod.exit_code_rule(X, rep, [sendsmod.SendSite(prog, c) for c in au], {})
     for c in au:
         X.arg_has('K10', 'authenticate:to-client', c, 1, ['F:DealProposal.client'], 'the signature is authenticated by the proposal\'s client', forbid=['F:DealProposal.provider'])
         X.arg_has('K10', 'authenticate:method', c, 2, ['K:AUTHENTICATE_MESSAGE_METHOD'], 'AuthenticateMessage')
@@ -91,6 +92,16 @@ def run(prog, rep, tier, cfg):
             rep.need('K10', 'publish:client-cover-running-total', has_atom(at, 'C:BTreeMap::<K, V, A>::get') or has_atom(at, 'C:unwrap_or_default'), 'the client lock-up accumulates over the batch', c.where)
         else:
             X.arg_has('K10', 'publish:provider-cover-amount', c, 3, ['F:DealProposal.provider_collateral'], 'provider cover includes this deal\'s collateral', narrow=False)
+    # the client's running lock-up is looked up and stored under one key - the resolved client id - so that several deals of one client add up
+    CBR = 'C:DealProposal::client_balance_requirement'
+    mg = [c for c in P.calls if (c.callee or '').endswith('BTreeMap::<K, V, A>::get') and has_atom(prog.narrow.operand(P, c.args[0]), CBR)]
+    mi = [c for c in P.calls if (c.callee or '').endswith('BTreeMap::<K, V, A>::insert') and has_atom(prog.narrow.operand(P, c.args[2]), CBR)]
+    rep.need('K5', 'publish:client-running-total-sites', len(mg) == 1 and len(mi) == 1, 'one look-up and one store of the per-client running lock-up (found %d, %d)' % (len(mg), len(mi)), X.loc(P))
+    if mg and mi:
+        X.index_agreement('K10', 'publish:client-running-total-key', P, [('get', c, 1) for c in mg] + [('insert', c, 1) for c in mi], 'the running lock-up is read and written under the same key')
+        for c in mg + mi:
+            X.arg_has('K10', 'publish:client-running-total-key-resolved:%s' % c.callee.split('::')[-1], c, 1, ['C:Runtime::resolve_address'], 'the key is the resolved client id (one entry per client whatever address form the proposal uses)',
+                      forbid=['F:DealProposal.client', 'F:DealProposal.provider'])
     # commit closure
     cls = [g for g in prog.closures_of(P.id, recursive=False) if any(callee_is(ST + 'lock_client_and_provider_balances')(c) for c in g.calls)]
     rep.need('K6', 'publish:commit-closure', len(cls) == 1, 'one commit closure expected', X.loc(P))
@@ -229,5 +240,12 @@ def publish_gates(prog, rep, X, prefix=''):
     for c in q:
         X.arg_has('K10', prefix + 'publish:control-query-of-caller', c, 3, ['C:MessageInfo::caller'], 'the queried address is the message caller', narrow=False)
         X.arg_has('K10', prefix + 'publish:control-query-to-provider', c, 1, ['F:DealProposal.provider', 'C:Runtime::resolve_address'], 'asked of the (first) deal\'s provider', narrow=False)
+    # the miner's side of that query: "controlling" means owner, worker or a control address of the miner - and the queried address itself
+    IC = X.fn('Actor::is_controlling_address', 'fil_actor_miner')
+    vals = [(bb, a) for (bb, a) in X.agg_field_atoms(IC, 'IsControllingAddressReturn', 'is_controlling', narrow=False) if not (has_atom(a, 'V:0') and len([x for x in a if x[0] != 'V']) == 0)]
+    X.value_from('K10', prefix + 'publish:miner-answers-from-control-set', IC, vals,
+                 ['F:MinerInfo.owner', 'F:MinerInfo.worker', 'F:MinerInfo.control_addresses', 'F:IsControllingAddressParam.address', 'C:get_miner_info'],
+                 'is_controlling compares the queried address with the miner info\'s owner, worker and control addresses', forbid=['F:MinerInfo.beneficiary', 'F:MinerInfo.pending_owner_address', 'C:MessageInfo::caller', 'C:MessageInfo::origin'])
+    X.const_is('K11', 'IS_CONTROLLING_ADDRESS_EXPORTED', 348244887, CR)
     X.iter_guard('K6b', prefix + 'publish:same-provider', P, [c.bb for c in P.calls if (c.callee or '').endswith('Vec::<T, A>::push') and has_atom(prog.narrow.operand(P, c.args[1]), 'E:ValidDeal')],
                  m_rel('ne', ['F:DealProposal.provider'], ['C:Runtime::resolve_address'], False), 'deal of another provider => skip')
